@@ -190,6 +190,7 @@ impl Scenario for Mux {
             [None, None]
         };
         let kernel = self.kernel;
+        let var_regimes = self.faults && cx.ch.chance("cfg.var_regimes", 1, 2);
         let task_stall = if self.faults { (cx.ch.draw("cfg.task_stall", 4), 8) } else { (0, 1) };
         let total_bytes: usize = eps.iter().flat_map(|e| e.send.iter()).map(|c| c.len()).sum();
         cx.st.add("probe.chunks_planned", total as u64);
@@ -225,7 +226,12 @@ impl Scenario for Mux {
             let (ra_, rb_) = (pa.spawn(), pb.spawn());
             let mut handles = vec![];
             for (i, (e, c)) in eps.iter().cloned().zip(chans.into_iter()).enumerate() {
-                handles.push(tokio::spawn(chaos(endpoint_task(sh.clone(), c, e, i), &sh, task_stall)));
+                // half the faulty runs give every endpoint its own, changing stall regime
+                if var_regimes {
+                    handles.push(tokio::spawn(chaos_var(endpoint_task(sh.clone(), c, e, i), &sh)));
+                } else {
+                    handles.push(tokio::spawn(chaos(endpoint_task(sh.clone(), c, e, i), &sh, task_stall)));
+                }
             }
             if let Some(mut sc) = stray_chan {
                 let sh2 = sh.clone();
@@ -286,7 +292,7 @@ pub fn def() -> CheckDef {
             "no loss or corruption is injected: the statement assumes a connected pair",
             "in the kernel-socketpair batch the kernel's buffer accounting is outside the simulator; it is a function of this thread's syscall sequence on two sockets private to the run (determinism observed by the double-run guard, not constructed)",
         ],
-        required: vec!["fault.stall", "fault.short_read", "fault.partial_write", "fault.delay", "fault.task_stall", "probe.backpressure_timeout", "probe.unsubscribed_chunks_sent", "probe.chunks_delivered", "fault.kernel_short_write_forced", "fault.kernel_min_sndbuf", "fault.kernel_min_rcvbuf"],
+        required: vec!["fault.stall", "fault.short_read", "fault.partial_write", "fault.delay", "fault.task_stall", "probe.backpressure_timeout", "probe.unsubscribed_chunks_sent", "probe.chunks_delivered", "fault.kernel_short_write_forced", "fault.kernel_min_sndbuf", "fault.kernel_min_rcvbuf", "fault.task_starved_regime"],
         env_nondeterminism: "task interleaving (seeded stalls at every pipe/task poll), simulated-time delays, read/write granularity, back-pressure; tokio's scheduler RNG seeded per run",
     }
 }
